@@ -123,11 +123,15 @@ def sel_member(term, a):
     raise ValueError(op)
 
 
-def gen_selection(rng, static_addrs, depth=2):
+SEL_BIAS = {"term": 0.45, "or": 0.2, "and": 0.15, "not": 0.2}
+
+
+def gen_selection(rng, static_addrs, depth=2, bias=None):
+    bias = bias or SEL_BIAS
     r = rng.random()
     if not static_addrs:
         return [rng.choice(["all", "none"])]
-    if depth <= 0 or r < 0.45:
+    if depth <= 0 or r < bias["term"]:
         r2 = rng.random()
         if r2 < 0.12:
             return ["all"]
@@ -141,11 +145,13 @@ def gen_selection(rng, static_addrs, depth=2):
         if rng.random() < 0.2:
             a[rng.randrange(len(a))] = "..."
         return ["atleaf" if rng.random() < 0.25 else "at", a]
-    if r < 0.65:
-        return ["or", gen_selection(rng, static_addrs, depth - 1), gen_selection(rng, static_addrs, depth - 1)]
-    if r < 0.8:
-        return ["and", gen_selection(rng, static_addrs, depth - 1), gen_selection(rng, static_addrs, depth - 1)]
-    return ["not", gen_selection(rng, static_addrs, depth - 1)]
+    r = (r - bias["term"]) / max(1e-9, 1.0 - bias["term"])
+    tot = bias["or"] + bias["and"] + bias["not"]
+    if r < bias["or"] / tot:
+        return ["or", gen_selection(rng, static_addrs, depth - 1, bias), gen_selection(rng, static_addrs, depth - 1, bias)]
+    if r < (bias["or"] + bias["and"]) / tot:
+        return ["and", gen_selection(rng, static_addrs, depth - 1, bias), gen_selection(rng, static_addrs, depth - 1, bias)]
+    return ["not", gen_selection(rng, static_addrs, depth - 1, bias)]
 
 
 # ----------------------------------------------------------------- constraints
@@ -283,6 +289,8 @@ def profile_for(pid, tier):
         G["kinds"].update({"scan": 5, "vmap": 4, "mask": 3})
     elif pid == "C07":
         P["ops"].update({"regenerate": 9, "undo": 2})
+        P["sel_bias"] = {"term": 0.25, "or": 0.2, "and": 0.25, "not": 0.3}
+        P["sel_depth"] = 3
         G["kinds"].update({"vmap": 1, "repeat": 1, "switch": 1, "mask": 1})
     elif pid == "C03":
         P["ops"].update({"importance": 10, "update": 1})
@@ -292,6 +300,8 @@ def profile_for(pid, tier):
         G["kinds"].update({"mask": 4, "switch": 4})
     elif pid == "C10":
         P["ops"].update({"project": 8})
+        P["sel_bias"] = {"term": 0.25, "or": 0.2, "and": 0.25, "not": 0.3}
+        P["sel_depth"] = 3
     elif pid == "C34":
         P["ops"].update({"subtrace": 8})
         G["root_kinds"] = {"static": 6, "dimap": 1, "closure": 1, "vmap": 1, "scan": 1}
@@ -427,7 +437,7 @@ def gen_session(session_seed, pid, tier, profile=None):
                 st["constraint"] = gen_constraint(rng, node, mode)
                 st["build"] = rng.choice(BUILD_STYLES)
             elif op == "regenerate":
-                st["sel"] = gen_selection(rng, uni_static)
+                st["sel"] = gen_selection(rng, uni_static, P.get("sel_depth", 2), P.get("sel_bias"))
                 if not accepts_regenerate(node):
                     expect = "reject"
             elif op == "index_edit":
@@ -482,7 +492,7 @@ def gen_session(session_seed, pid, tier, profile=None):
             # the restored trace is an edit result too (undo of undo)
             slots.append({"name": st["out"], "args": tgt["src"]["args"], "edit": len(steps) - 1, "src": tgt})
         elif op == "project":
-            st = {"op": "project", "src": src["name"], "sel": gen_selection(rng, uni_static), "key": key()}
+            st = {"op": "project", "src": src["name"], "sel": gen_selection(rng, uni_static, P.get("sel_depth", 2), P.get("sel_bias")), "key": key()}
             st["expect"] = "ok" if supports_project(node) else "reject"
             st["api"] = rng.choice(["tr", "gf"])
             steps.append(st)
